@@ -216,8 +216,10 @@ def _batch(seed, start, count):
     return res
 
 
-def real_case(cfg, pin=None):
-    """pin: None, or a value in (1-2e-4, 1): once, late in the run, the temperature the reweighter recorded is replaced by
+def real_case(cfg, pin=None, pin_limit=None):
+    """pin_limit: None, or a value in (1-2e-4, 1) injected as the ESS-limited upper temperature (attach.pin_limit): the real
+    code then decides, weighs, records and finalises an iteration at a temperature inside the last 1e-4 below one.
+    pin: None, or a value in (1-2e-4, 1): once, late in the run, the temperature the reweighter recorded is replaced by
     `pin` (an injected reweighter decision inside the last 2e-4 below one, which ordinary runs step over).  Whatever the
     reweighter recorded for an iteration with beta > 0 must be exactly what that iteration commits."""
     from tempest.steps.reweight import Reweighter
@@ -241,6 +243,7 @@ def real_case(cfg, pin=None):
                         bad.append(("committed-other-temperature", f"iteration {stats['iters']}: the reweighting step recorded {k2}={recorded[k2]!r} "
                                     f"(beta={recorded['beta']!r}) but the iteration commits {k2}={float(cur[k2])!r}"))
         hk.wrap(StateManager, "commit_current_to_history", before=commit_before)
+        pl = attach.pin_limit(hk, pin_limit)          # inner wrapper: the limit observed below is the injected one
         hk.wrap(Reweighter, "_find_beta_upper_limit", after=lambda ctx, r, *a, **k: limits.append(float(r)))
 
         inner = {"on": False}
@@ -306,6 +309,9 @@ def real_case(cfg, pin=None):
             bad.append(("run-raises", f"{type(e).__name__}: {e}"))
     # committed history is monotone and bounded
     betas = [float(b) for b in s.state.get_history("beta")]
+    stats["limit_pinned"] = int(pl["n"] > 0)
+    if pin_limit is not None and pl["n"]:
+        stats["band_recorded"] = int(any(1 - 2e-4 < b < 1 for b in betas))
     if betas and betas[0] != 0.0:
         bad.append(("first-beta-not-zero", f"history starts at beta={betas[0]}"))
     if any(b2 < b1 for b1, b2 in zip(betas, betas[1:])) or any(b > 1 for b in betas):
@@ -355,6 +361,12 @@ def run():
         cfg["ess_ratio"] = [2.0, 1.0, 3.5, 0.5][i % 4]
         cfg["volume_variation"] = [None, 1.0, None, 0.3, 5.0][i % 5]
         rt.append(("tvf.checks.c05:real_case", dict(cfg=cfg, pin=pins[i % len(pins)]), None))
+    lpins = [1 - 5e-5, 1 - 2 ** -14, 1 - 9.9e-5, 1 - 1e-7, 1 - 1.2e-4, 1 - 3e-5]
+    for i in range(ck.pick(12, 96)):
+        cfg = dict(runs.small_cfg(i + 1), seed=ck.subseed("lpin", i))
+        cfg["ess_ratio"] = [2.0, 1.0, 3.5][i % 3]
+        cfg["volume_variation"] = [None, 1.0, None, 5.0][i % 4]
+        rt.append(("tvf.checks.c05:real_case", dict(cfg=cfg, pin_limit=lpins[i % len(lpins)]), None))
     for i, st, val in farm.run(rt, timeout=900, progress="C05-runs"):
         cfg = rt[i][1]["cfg"]
         if st == "timeout":
@@ -371,6 +383,8 @@ def run():
         ck.event("real-run commits compared with what the reweighting step recorded", stats.get("commits", 0))
         ck.event("reweighting steps replayed on a fresh Reweighter (differential)", stats.get("fresh", 0))
         ck.event("real runs with an injected reweighter decision inside the last 2e-4 below one", stats.get("pinned", 0))
+        ck.event("real runs whose ESS limit was injected inside the last 2e-4 below one", stats.get("limit_pinned", 0))
+        ck.event("real runs in which the reweighter itself decided on a temperature inside the last 2e-4 below one", stats.get("band_recorded", 0))
         seen = set()
         for key, what in bad:
             if key not in seen:
@@ -378,7 +392,8 @@ def run():
                 ck.violation(key, what, dict(cfg=cfg))
     ck.require_events("synthetic pools through Reweighter.run", "pools on which beta advanced", "_find_beta_upper_limit observed",
                       "sequence steps judged", "sequence steps where the ESS limit dropped below 1 after having been 1",
-                      "real-run Reweighter.run invocations judged", "real-run iterations on which beta advanced")
+                      "real-run Reweighter.run invocations judged", "real-run iterations on which beta advanced",
+                      "real runs whose ESS limit was injected inside the last 2e-4 below one")
     return ck.finish(
         rule="synthetic pools (T<=8 batches, unequal sizes, quadratic/flat/peaked/heavy likelihoods, 1..T warm-up batches, ess_ratio {0.5,1,2,3.5}, "
              "volume targets {0.2,1,5}) pushed through the real Reweighter.run; monitored real runs over kernels/resamplers/clustering/metric modes; "
